@@ -7,6 +7,9 @@ C18 line protocol.  One line = one whole history.
   B <max_size> <op> ...            SpooledBytesIO(max_size)
   S <max_size> <chunk> <op> ...    SpooledStringIO(max_size) with READ_CHUNK_SIZE = chunk (`R` = the value in the source)
   M b|t <n> <hex>*n <mop> ...      MultiFileReader over n BytesIO (b) / StringIO (t) members
+  F b|t|d <op> ...                 the REFERENCE file the theorems refine to, run by itself: `Spec.run bytesSem` (b, against
+                                   io.BytesIO and tempfile.TemporaryFile), `Spec.run textSem` (t, io.StringIO(newline='')),
+                                   `Spec.run lfSem` (d, the default io.StringIO()); also overwriting writes and (b) gaps
 
 ops:  w<hex> write | W<hex>,<hex>… writelines (W alone = empty batch) | r<n> read(n) | ra read() | rl readline() | rL<n> readline(n) | rs readlines()
       sk<n> seek(n) | sc<n> seek(n, SEEK_CUR) | se<n> seek(∓n, SEEK_END) | t tell() | g getvalue()
@@ -91,6 +94,14 @@ def runStr (s : SStr) : List (Op Char) → List String → List String
         | _, o => showOut hexOfChars o
       runStr r.2 ops (s!"{shown}@{r.2.tell}" :: acc)
 
+/-- the plain reference file by itself (the right-hand side of the refinement theorems) -/
+def runSpec {α : Type} [Inhabited α] (sem : LineSem α) (h : List α → String) (f : File α) :
+    List (Op α) → List String → List String
+  | [], acc => acc.reverse
+  | op :: ops, acc =>
+    let r := Spec.step sem f op
+    runSpec sem h r.2 ops (s!"{showOut h r.1}@{r.2.pos}" :: acc)
+
 def parseMOp (tok : String) : Option MOp :=
   if tok = "ra" then some .readAll
   else if tok = "s" then some .seek0
@@ -127,6 +138,16 @@ def handle (line : String) : String :=
     match ms.toNat?, (if ch = "R" then some C18.Generated.READ_CHUNK_SIZE else ch.toNat?), parseOps charsOfHex? toks with
     | some ms, some ch, some ops => ";".intercalate (runStr (SStr.init ms ch) ops [])
     | _, _, _ => "bad-op"
+  | "F" :: kind :: toks =>
+    if kind = "b" then
+      match parseOps bytesOfHex? toks with
+      | some ops => ";".intercalate (runSpec bytesSem hexOfBytes File.empty ops [])
+      | none => "bad-op"
+    else if kind = "t" || kind = "d" then
+      match parseOps charsOfHex? toks with
+      | some ops => ";".intercalate (runSpec (if kind = "t" then textSem else lfSem) hexOfChars File.empty ops [])
+      | none => "bad-op"
+    else "bad-op"
   | "M" :: kind :: n :: rest =>
     match n.toNat? with
     | some n =>
